@@ -5,8 +5,8 @@ cd /verif || exit 1
 [ -f go.sum ] || cp /repo/go.sum go.sum
 mkdir -p bin evidence replays
 rc=0
-for d in checks/*/; do
-  lc=$(basename "$d")
+for lc in $(python3 -c "import json;print(' '.join(c['property_id'].lower() for c in json.load(open('scripts/checks.json'))['checks']))"); do
+  d="checks/$lc/"
   ld=""; [ -f "$d/ldflags" ] && ld="$(cat "$d/ldflags")"
   if [ -n "$ld" ]; then go build -tags verif -ldflags "$ld" -o "bin/$lc" "./$d" || rc=1
   else go build -tags verif -o "bin/$lc" "./$d" || rc=1; fi
